@@ -192,8 +192,12 @@ def s3_lock(sp, n=2, K=2, pause_max_ms=130000, heartbeat=False, timeout=1.0):
                 held = p.is_held()
                 content = e.s3.o.get(key, (None,))[0]
                 if held:
-                    sp.require(content == p.lock_id.encode(), f"s3lock: is_held() of contender {i} is True but the lock object carries another id "
-                               f"(schedule {sc.trace_str()})", {"sig": "s3lock:is_held-true-not-owner"})
+                    lw = None
+                    for (st_, k_, a_, b_, af_) in e.s3.put_log:
+                        if k_ == key:
+                            lw = a_
+                    sp.require(content == p.lock_id.encode() and lw in (i, "hb"), f"s3lock: is_held() of contender {i} is True but the lock object was "
+                               f"last written by contender {lw} (schedule {sc.trace_str()})", {"sig": "s3lock:is_held-true-not-owner"})
                 inside.pop(i, None)
                 p.release()
                 return "ok" if held else "lost"
@@ -244,12 +248,15 @@ def _mods(e, key):
 
 
 def _last_write_ms(e, key, j):
-    """server-side LastModified (ms) of the last applied write of the lock object that carries contender j's id
-    (its create / takeover / renewals) = start of j's current lease"""
+    """server-side LastModified (ms) of the last applied write of the lock object made BY contender j (its create / takeover)
+    or by the heartbeat on its behalf (renewal carrying j's id) = start of j's current lease"""
     ms = None
     mine = e.lock_ids[j]
-    for st, body in e.s3.history.get(key, []):
-        if body == mine:
+    bodies = dict(e.s3.history.get(key, []))
+    for (st, k, a, before, after) in e.s3.put_log:
+        if k != key:
+            continue
+        if a == j or (a == "hb" and bodies.get(st) == mine):
             ms = e.s3.times.get((key, st))
     return ms
 
